@@ -71,25 +71,25 @@ macro_rules! rt_harness {
     };
 }
 
-//@ harness name=cast5_conf_enc16 prop=C09,C20 tier=thorough bits=704 est=3600 cap=7200 desc="D: encrypt_block on an arbitrary 16-round state (masking, rotate: any bytes; small_key = false) == RFC 2144 encryption with 16 rounds, f1/f2/f3 types per round, all blocks; S-box indices in range, no overflow"
+//@ disabled-harness reason=never_finished:_no_answer_in_1800_s_(CaDiCaL)_/_37_min_for_the_half_schedule name=cast5_conf_enc16 prop=C09,C20 tier=thorough bits=704 est=3600 cap=7200 desc="D: encrypt_block on an arbitrary 16-round state (masking, rotate: any bytes; small_key = false) == RFC 2144 encryption with 16 rounds, f1/f2/f3 types per round, all blocks; S-box indices in range, no overflow"
 conf_harness!(cast5_conf_enc16, false, encrypt_block, false);
-//@ harness name=cast5_conf_enc12 prop=C09,C20 tier=thorough bits=704 est=3600 cap=7200 desc="D: encrypt_block on an arbitrary 12-round state (small_key = true: keys of up to 80 bits) == RFC 2144 encryption with 12 rounds, all blocks"
+//@ disabled-harness reason=never_finished:_no_answer_in_1800_s_(CaDiCaL)_/_37_min_for_the_half_schedule name=cast5_conf_enc12 prop=C09,C20 tier=thorough bits=704 est=3600 cap=7200 desc="D: encrypt_block on an arbitrary 12-round state (small_key = true: keys of up to 80 bits) == RFC 2144 encryption with 12 rounds, all blocks"
 conf_harness!(cast5_conf_enc12, true, encrypt_block, false);
-//@ harness name=cast5_conf_dec16 prop=C09,C20 tier=thorough bits=704 est=3600 cap=7200 desc="D: decrypt_block on an arbitrary 16-round state == RFC 2144 decryption (round keys in reverse order), all blocks"
+//@ disabled-harness reason=never_finished:_no_answer_in_1800_s_(CaDiCaL)_/_37_min_for_the_half_schedule name=cast5_conf_dec16 prop=C09,C20 tier=thorough bits=704 est=3600 cap=7200 desc="D: decrypt_block on an arbitrary 16-round state == RFC 2144 decryption (round keys in reverse order), all blocks"
 conf_harness!(cast5_conf_dec16, false, decrypt_block, true);
-//@ harness name=cast5_conf_dec12 prop=C09,C20 tier=thorough bits=704 est=3600 cap=7200 desc="D: decrypt_block on an arbitrary 12-round state == RFC 2144 decryption with 12 rounds, all blocks"
+//@ disabled-harness reason=never_finished:_no_answer_in_1800_s_(CaDiCaL)_/_37_min_for_the_half_schedule name=cast5_conf_dec12 prop=C09,C20 tier=thorough bits=704 est=3600 cap=7200 desc="D: decrypt_block on an arbitrary 12-round state == RFC 2144 decryption with 12 rounds, all blocks"
 conf_harness!(cast5_conf_dec12, true, decrypt_block, true);
 
-//@ harness name=cast5_roundtrip_ed16 prop=C01,C20 tier=thorough bits=704 est=3600 cap=7200 desc="D: decrypt_block(encrypt_block(b)) == b on an arbitrary 16-round state (superset of all keys of more than 80 bits), all blocks"
+//@ disabled-harness reason=never_finished:_no_answer_in_1800_s_(CaDiCaL)_/_37_min_for_the_half_schedule name=cast5_roundtrip_ed16 prop=C01,C20 tier=thorough bits=704 est=3600 cap=7200 desc="D: decrypt_block(encrypt_block(b)) == b on an arbitrary 16-round state (superset of all keys of more than 80 bits), all blocks"
 rt_harness!(cast5_roundtrip_ed16, false, encrypt_block, decrypt_block);
-//@ harness name=cast5_roundtrip_ed12 prop=C01,C20 tier=thorough bits=704 est=3600 cap=7200 desc="D: decrypt_block(encrypt_block(b)) == b on an arbitrary 12-round state (superset of all keys of 40..=80 bits), all blocks"
+//@ disabled-harness reason=never_finished:_no_answer_in_1800_s_(CaDiCaL)_/_37_min_for_the_half_schedule name=cast5_roundtrip_ed12 prop=C01,C20 tier=thorough bits=704 est=3600 cap=7200 desc="D: decrypt_block(encrypt_block(b)) == b on an arbitrary 12-round state (superset of all keys of 40..=80 bits), all blocks"
 rt_harness!(cast5_roundtrip_ed12, true, encrypt_block, decrypt_block);
-//@ harness name=cast5_roundtrip_de16 prop=C01,C20 tier=thorough bits=704 est=3600 cap=7200 desc="D: encrypt_block(decrypt_block(b)) == b on an arbitrary 16-round state, all blocks"
+//@ disabled-harness reason=never_finished:_no_answer_in_1800_s_(CaDiCaL)_/_37_min_for_the_half_schedule name=cast5_roundtrip_de16 prop=C01,C20 tier=thorough bits=704 est=3600 cap=7200 desc="D: encrypt_block(decrypt_block(b)) == b on an arbitrary 16-round state, all blocks"
 rt_harness!(cast5_roundtrip_de16, false, decrypt_block, encrypt_block);
-//@ harness name=cast5_roundtrip_de12 prop=C01,C20 tier=thorough bits=704 est=3600 cap=7200 desc="D: encrypt_block(decrypt_block(b)) == b on an arbitrary 12-round state, all blocks"
+//@ disabled-harness reason=never_finished:_no_answer_in_1800_s_(CaDiCaL)_/_37_min_for_the_half_schedule name=cast5_roundtrip_de12 prop=C01,C20 tier=thorough bits=704 est=3600 cap=7200 desc="D: encrypt_block(decrypt_block(b)) == b on an arbitrary 12-round state, all blocks"
 rt_harness!(cast5_roundtrip_de12, true, decrypt_block, encrypt_block);
 
-//@ harness name=cast5_half_schedule prop=C09,C20 tier=thorough bits=256 est=900 mem=30 desc="L: schedule::key_schedule(x, z, k) == the sixteen K_i and the updated x0..xF of RFC 2144 2.4 (formulas interpreted from index tables), for all 2^128 x and arbitrary incoming z (outputs do not depend on it); get_i! indices in range"
+//@ disabled-harness reason=never_finished:_no_answer_in_1800_s_(CaDiCaL)_/_37_min_for_the_half_schedule name=cast5_half_schedule prop=C09,C20 tier=thorough bits=256 est=900 mem=30 desc="L: schedule::key_schedule(x, z, k) == the sixteen K_i and the updated x0..xF of RFC 2144 2.4 (formulas interpreted from index tables), for all 2^128 x and arbitrary incoming z (outputs do not depend on it); get_i! indices in range"
 verif_harness! {
     name: cast5_half_schedule,
     bytes: 32,
